@@ -8,6 +8,8 @@ import HttpcoreModel.Drv.C15
 import HttpcoreModel.Drv.H2
 import HttpcoreModel.Drv.Unasync
 import HttpcoreModel.Drv.Sys
+import HttpcoreModel.Drv.Life
+import HttpcoreModel.Drv.Backend
 /-!
 Line-protocol driver: one case per input line, one answer per output line.
 First token selects the model function.  Imports model files only (no proofs, no Mathlib).
@@ -35,6 +37,9 @@ def dispatch (line : String) : String :=
     else if cmd = "h2recv" then Drv.h2recv args
     else if cmd = "unasync" then Drv.unasyncCmd args
     else if cmd = "sysreach" then Drv.SysD.sysreach args
+    else if cmd = "life2" then Drv.life2 args
+    else if cmd = "life1" then Drv.life1 args
+    else if cmd = "bwrite" then Drv.bwrite args
     else "bad-cmd"
 
 partial def loop (h : IO.FS.Stream) (out : IO.FS.Stream) : IO Unit := do
